@@ -1,10 +1,10 @@
 #!/bin/sh
-# tools/try_seed.sh <patch.diff> <check-prop> [extra check args]: apply a seeded change to a scratch worktree at /repo's HEAD,
-# run the check against it (VERIF_REPO), remove the worktree.
+# tools/try_seed.sh <patch.diff> <check-prop> [extra check args]: apply a seeded change to a scratch worktree at /repo's HEAD
+# (3-way merge if the context moved), run the check against it (VERIF_REPO), remove the worktree.
 P="$1"; PROP="$2"; shift 2
 WT=$(mktemp -d /tmp/trysd.XXXXXX)
 git -C /repo worktree add -q --detach "$WT" HEAD || exit 9
-( cd "$WT" && git apply "$P" ) || { echo "PATCH DOES NOT APPLY"; git -C /repo worktree remove --force "$WT"; exit 9; }
+( cd "$WT" && (git apply "$P" 2>/dev/null || git apply -3 "$P" 2>/dev/null) ) || { echo "PATCH DOES NOT APPLY"; git -C /repo worktree remove --force "$WT"; exit 9; }
 ( cd /verif && VERIF_REPO="$WT" ./check "$PROP" "$@" 2>/dev/null | grep -v "^  " | cut -c1-400 )
 rc=$?
 git -C /repo worktree remove --force "$WT"
